@@ -267,6 +267,8 @@ LastCharDef(codes)  == Min2(SetMax(codes), 65535)
 \* floor(x * 10^6 / upm) for x >= 0 given in half units x2 = 2x, without leaving 32 bits
 MicroN(x2, upm) == LET a == x2 * 500 IN (a \div upm) * 1000 + ((a % upm) * 1000) \div upm
 Micro(x2, upm)  == IF x2 >= 0 THEN MicroN(x2, upm) ELSE -MicroN(-x2, upm)
+\* the same for x >= 0 given in units of 1/20 (xq = 20x)
+MicroQ(xq, upm) == LET a == xq * 50 IN (a \div upm) * 1000 + ((a % upm) * 1000) \div upm
 Near(a, b) == Abs(a - b) <= 1
 
 \* sandwich: a glyph box must contain every on-curve point (on = box of the on-curve points
@@ -282,12 +284,15 @@ SandwichMicro(q, onin, all, upm) ==
   /\ q[1] >= Micro(2 * all[1], upm) - 1 /\ q[2] >= Micro(2 * all[2], upm) - 1
   /\ q[3] <= Micro(2 * all[3], upm) + 1 /\ q[4] <= Micro(2 * all[4], upm) + 1
 
-\* fixed pitch: certainly fixed when all widths are equal, certainly not when two non-zero
-\* widths differ by a unit or more; in between (zero-width marks, fractions) either answer
-AllEqual(wlo, whi) == \A i \in 1..Len(wlo) : wlo[i] = wlo[1] /\ whi[i] = whi[1]
-ClearlyProportional(wlo, whi) ==
-  \E i, j \in 1..Len(wlo) : wlo[i] > 0 /\ wlo[j] > 0 /\ wlo[j] - whi[i] >= 1
-FixedPitchOK(fixed, wlo, whi) ==
-  /\ AllEqual(wlo, whi) /\ whi[1] > 0 => fixed
-  /\ ClearlyProportional(wlo, whi) => ~fixed
+\* fixed pitch ("all glyphs have the same advance width"), widths wq in units of 1/20:
+\* certainly fixed when all widths are equal and non-zero, certainly not when two non-zero widths
+\* differ by a whole unit or more - however the glyphs are ordered and however small the steps
+\* between neighbours are; in between (zero-width marks among equal widths, spread below one
+\* unit) the property fixes no answer
+AllEqual(wq) == \A i \in 1..Len(wq) : wq[i] = wq[1]
+ClearlyProportional(wq) ==
+  \E i, j \in 1..Len(wq) : wq[i] > 0 /\ wq[j] > 0 /\ wq[j] - wq[i] >= 20
+FixedPitchOK(fixed, wq) ==
+  /\ AllEqual(wq) /\ wq[1] > 0 => fixed
+  /\ ClearlyProportional(wq) => ~fixed
 =============================================================================
